@@ -3,6 +3,7 @@ package main
 // Shared helpers of the lnet6 layer sub-checks (Licmp6, Lip6, Lgre).
 
 import (
+	"crypto/md5"
 	"encoding/hex"
 	"fmt"
 	"go/ast"
@@ -275,4 +276,27 @@ func n6tagset(m map[string]bool) []string {
 
 func n6oracle(clause, format string, a ...interface{}) string {
 	return clause + "\t" + fmt.Sprintf(format, a...)
+}
+
+// n6payload parses a payload argument: hex, or *<n>x<hexbyte> for n repetitions of one byte.
+func n6payload(s string) []byte {
+	if strings.HasPrefix(s, "*") {
+		ns, bs, _ := strings.Cut(s[1:], "x")
+		n := n6atoi(ns)
+		v := n6unhex(bs)
+		b := make([]byte, n)
+		for i := range b {
+			b[i] = v[0]
+		}
+		return b
+	}
+	return n6unhex(s)
+}
+
+// n6big prints a byte string as hex, or as md5:<len>:<digest> when it is longer than 2048 bytes.
+func n6big(b []byte) string {
+	if len(b) <= 2048 {
+		return n6hex(b)
+	}
+	return fmt.Sprintf("md5:%d:%x", len(b), md5.Sum(b))
 }
